@@ -91,25 +91,39 @@ struct U_src : public op
   }
 };
 
-// ---- mapping stub: per input stack [.. t] yields cnt[t] <= VP_M results [.. out[t][k]]
-// (pos = k).  Behaviour is a function of the top token only, so oracles can compute it.
+// ---- scenario decoding.  Control-relevant choices of a harness (how many inputs, how
+// they are split into re-feed epochs, how many results each sub-expression yields for
+// each input, predicate outcomes) are digits of a mixed-radix scenario number.  The
+// scenario number itself is a SYMBOLIC value chosen by the solver; the harness body is
+// `for (k = 0; k < N; ++k) if (scenario == k) run (k);' so that inside run(k) all
+// control flow is concrete (CBMC then keeps every heap pointer concrete -- with merged
+// control flow its symbolic execution of this C++ heap code does not terminate, see
+// DESIGN 2.5) while payload tokens stay symbolic.
+struct cfgdec
+{
+  uint64_t k;
+  explicit cfgdec (uint64_t kk) : k {kk} {}
+  unsigned take (unsigned radix) { unsigned r = k % radix; k /= radix; return r; }
+};
+
+// ---- mapping stub: for the input stack whose id slot (depth 1) is i it yields
+// m_cnt[i] <= VP_M results [.., out[i][k]] (pos = k).  Counts are scenario digits
+// (concrete inside a scenario), output tokens are symbolic.
 struct S_map : public inner_op
 {
   struct state { stack::uptr m_cur; unsigned m_k; };
   layout::loc m_ll;
-  unsigned m_cnt[VP_D];
-  uint64_t m_out[VP_D][VP_M];
+  unsigned m_cnt[6];
+  uint64_t m_out[6][VP_M];
 
   S_map (layout &l, std::shared_ptr <op> upstream) : inner_op {upstream}, m_ll {l.reserve <state> ()} {}
-  void randomize ()
+  void configure (cfgdec &d, unsigned ninputs, unsigned maxcnt)
   {
-    for (unsigned t = 0; t < VP_D; ++t)
+    for (unsigned i = 0; i < 6; ++i)
       {
-        unsigned c = vp_nondet_u8 ();
-        vp_assume (c <= VP_M);
-        m_cnt[t] = c;
+        m_cnt[i] = i < ninputs ? d.take (maxcnt + 1) : 0;
         for (unsigned k = 0; k < VP_M; ++k)
-          m_out[t][k] = nd_tok ();
+          m_out[i][k] = nd_tok ();
       }
   }
   std::string name () const override { return "S"; }
@@ -127,12 +141,12 @@ struct S_map : public inner_op
               return nullptr;
             st.m_k = 0;
           }
-        uint64_t t = tok_at (*st.m_cur, 0);
-        if (st.m_k < m_cnt[t])
+        uint64_t id = tok_at (*st.m_cur, 1);
+        if (st.m_k < m_cnt[id])
           {
             auto r = std::make_unique <stack> (*st.m_cur);
             r->pop ();
-            r->push (std::make_unique <value_tok> (m_out[t][st.m_k], st.m_k));
+            r->push (std::make_unique <value_tok> (m_out[id][st.m_k], st.m_k));
             st.m_k++;
             return r;
           }
@@ -143,20 +157,19 @@ struct S_map : public inner_op
   }
 };
 
-// ---- symbolic predicate on the top token
+// ---- predicate whose outcome for input id i is a scenario digit
 struct P_sym : public pred
 {
-  pred_result m_res[VP_D];
-  void randomize ()
+  pred_result m_res[6];
+  void configure (cfgdec &d, unsigned ninputs)
   {
-    for (unsigned t = 0; t < VP_D; ++t)
+    for (unsigned i = 0; i < 6; ++i)
       {
-        unsigned r = vp_nondet_u8 ();
-        vp_assume (r <= 2);
-        m_res[t] = r == 0 ? pred_result::no : r == 1 ? pred_result::yes : pred_result::fail;
+        unsigned r = i < ninputs ? d.take (3) : 0;
+        m_res[i] = r == 0 ? pred_result::no : r == 1 ? pred_result::yes : pred_result::fail;
       }
   }
-  pred_result result (scon &sc, stack &stk) const override { return m_res[tok_at (stk, 0)]; }
+  pred_result result (scon &sc, stack &stk) const override { return m_res[tok_at (stk, 1)]; }
   std::string name () const override { return "P"; }
 };
 
